@@ -241,8 +241,18 @@ func TestVerif_C20_SplitCombine(t *testing.T) {
 		if !kit.WantCase(id) && kit.OnlyCase() != "" {
 			return
 		}
-		shares, err := Split(secret, n, th)
+		var shares [][]byte
+		var err error
+		panicked := func() (p any) {
+			defer func() { p = recover() }()
+			shares, err = Split(secret, n, th)
+			return nil
+		}()
 		r.Eval(1)
+		if panicked != nil {
+			r.Violate("C20-split-panic", id, fmt.Sprintf("Split(len %d, n=%d, t=%d) with valid parameters panicked: %v", len(secret), n, th, panicked), nil)
+			return
+		}
 		if err != nil {
 			r.Violate("C20-split-error", id, fmt.Sprintf("Split(len %d, n=%d, t=%d) failed: %v", len(secret), n, th, err), nil)
 			return
@@ -373,6 +383,54 @@ func TestVerif_C20_SplitCombine(t *testing.T) {
 		"unequal":     {sh[0], sh[1][1:], sh[2]},
 		"short":       {{1}, {2}},
 		"short-mixed": {sh[0], {1}},
+		// parts of unequal length in every position, the longer one first, in the middle and last;
+		// bytes appended after the x coordinate, inserted before it, and a doubled share
+		"longer-last-appended":    {sh[0], sh[1], append(append([]byte{}, sh[2]...), 9)},
+		"longer-middle-appended":  {sh[0], append(append([]byte{}, sh[1]...), 9), sh[2]},
+		"longer-first-appended":   {append(append([]byte{}, sh[0]...), 9), sh[1], sh[2]},
+		"longer-last-inserted":    {sh[0], sh[1], append(append(append([]byte{}, sh[2][:16]...), 9), sh[2][16])},
+		"longer-last-doubled":     {sh[0], sh[1], append(append([]byte{}, sh[2]...), sh[2]...)},
+		"longer-last-two-of-four": {sh[0], sh[1], sh[2], append(append([]byte{}, sh[3]...), 1, 2, 3)},
+		"shorter-last":            {sh[0], sh[1], sh[2][1:]},
+		"shorter-last-x-only":     {sh[0], sh[1], sh[2][16:]},
+	}
+	// generated: a genuine split of a seeded secret, one part at a seeded position lengthened or shortened
+	for i := 0; i < kit.N(200, 2000); i++ {
+		n := 2 + rng.Intn(6)
+		th := 2 + rng.Intn(n-1)
+		sec := rng.Bytes(1 + rng.Intn(40))
+		parts, err := Split(sec, n, th)
+		if err != nil {
+			continue
+		}
+		k := th + rng.Intn(n-th+1)
+		parts = parts[:k]
+		pos := rng.Intn(k)
+		if i%3 == 0 {
+			pos = k - 1
+		}
+		orig := parts[pos]
+		var mod []byte
+		how := ""
+		switch rng.Intn(4) {
+		case 0:
+			mod, how = append(append([]byte{}, orig...), rng.Bytes(1+rng.Intn(4))...), "bytes appended after x"
+		case 1:
+			mod, how = append(append(append([]byte{}, orig[:len(sec)]...), rng.Bytes(1+rng.Intn(4))...), orig[len(sec)]), "y bytes inserted before x"
+		case 2:
+			if len(sec) < 2 {
+				continue
+			}
+			mod, how = append([]byte{}, orig[1:]...), "first y byte dropped"
+		default:
+			if len(sec) < 2 {
+				continue
+			}
+			mod, how = append(append([]byte{}, orig[:len(sec)-1]...), orig[len(sec)]), "last y byte dropped"
+		}
+		parts[pos] = mod
+		rej[fmt.Sprintf("gen%d: %d parts of a %d-byte secret, part %d has %s (length %d, others %d)", i, k, len(sec), pos, how, len(mod), len(orig))] = parts
+		r.Count("combine_unequal_generated", 1)
 	}
 	for name, parts := range rej {
 		r.Eval(1)
@@ -389,6 +447,7 @@ func TestVerif_C20_SplitCombine(t *testing.T) {
 		r.Count("combine_rejections", 1)
 	}
 	r.Require("combines", 1000)
+	r.Require("combine_unequal_generated", 100)
 }
 
 // Statistical monitor (reported as such): coefficients of fresh polynomials are
